@@ -172,16 +172,17 @@ func ExtractAll(w *core.World) []*Machine {
 }
 
 type extractor struct {
-	m        *Machine
-	info     *types.Info
-	flat     []ast.Stmt
-	labelAt  map[string]int // label -> index into flat
-	isLabel  map[int][]string
-	trCache  map[string]*action
-	eofCases map[int]*action
-	start    int
-	curLabel string
-	aliases  map[types.Object]ast.Expr // if-scoped locals standing for an expression (if n := len(stack); …)
+	m          *Machine
+	info       *types.Info
+	flat       []ast.Stmt
+	labelAt    map[string]int // label -> index into flat
+	isLabel    map[int][]string
+	trCache    map[string]*action
+	eofCases   map[int]*action
+	start      int
+	curLabel   string
+	aliases    map[types.Object]ast.Expr // if-scoped locals standing for an expression (if n := len(stack); …)
+	lastSetErr string
 }
 
 // action is a parsed trN body / EOF clause.
